@@ -9,9 +9,17 @@
 (*   seq    k o              one sequence of kind k was processed           *)
 (*   resize rows cols o      the emulator was resized                       *)
 (*   panic  k msg            processing panicked                            *)
-(*   hang   k                processing did not return                      *)
+(*   hang   k ms             processing of a sequence of kind k did not     *)
+(*                           return within the deadline of ms milliseconds  *)
+(*                           (sixel strings, whose raster attributes and    *)
+(*                           repeat counts are numbers the child chooses:   *)
+(*                           a deadline per sequence, in a process that is  *)
+(*                           replaced afterwards; elsewhere 15 s)           *)
 (*   stall  what n consumer done   a child raised n events then printed a   *)
-(*                           marker; done = the marker reached the screen   *)
+(*                           marker; done = the marker reached the screen.  *)
+(*                           what = "query:x", consumer = "noread": a child *)
+(*                           in raw mode wrote n requests for a report and  *)
+(*                           never read the answers, then printed a marker  *)
 (*   conc   n done how       the host resized the terminal n times while a  *)
 (*                           child wrote without pause (the scheduler, not  *)
 (*                           the driver, interleaves them); the child then  *)
@@ -51,7 +59,7 @@ Next ==
      ELSE IF e.ev = "panic" THEN
         /\ Reject(e, "panic", [msg |-> e.msg]) /\ failed' = TRUE /\ UNCHANGED <<R, C>>
      ELSE IF e.ev = "hang" THEN
-        /\ Reject(e, "hang", <<>>) /\ failed' = TRUE /\ UNCHANGED <<R, C>>
+        /\ Reject(e, "hang", [ms |-> e.ms]) /\ failed' = TRUE /\ UNCHANGED <<R, C>>
      ELSE IF e.ev = "stall" THEN
         /\ UNCHANGED <<R, C>>
         /\ IF e.done THEN UNCHANGED failed
